@@ -2,6 +2,7 @@ package icmp
 
 import (
 	"context"
+	"errors"
 	"net"
 	"sync"
 	"time"
@@ -9,6 +10,9 @@ import (
 	"github.com/postalsys/muti-metroo/internal/crypto"
 	"github.com/postalsys/muti-metroo/internal/identity"
 )
+
+// errClosed is returned by Encrypt and Decrypt once the session is closed.
+var errClosed = errors.New("session closed")
 
 // SessionState represents the state of an ICMP session.
 type SessionState int
@@ -209,6 +213,12 @@ func (s *Session) Encrypt(plaintext []byte) ([]byte, error) {
 	s.mu.RLock()
 	defer s.mu.RUnlock()
 
+	// Close wipes the key; a payload read just before must not fall through
+	// to the keyless path and leave in the clear.
+	if s.closed {
+		return nil, errClosed
+	}
+
 	if s.SessionKey == nil {
 		return plaintext, nil
 	}
@@ -223,6 +233,10 @@ func (s *Session) Encrypt(plaintext []byte) ([]byte, error) {
 func (s *Session) Decrypt(ciphertext []byte) ([]byte, error) {
 	s.mu.RLock()
 	defer s.mu.RUnlock()
+
+	if s.closed {
+		return nil, errClosed
+	}
 
 	if s.SessionKey == nil {
 		return ciphertext, nil
